@@ -46,7 +46,8 @@ Definition pipe (fs : list (wpx -> wpx)) (chunk : list wpx) : list wpx :=
     (the D11 repair: a diagonal pixel is counted once) *)
 Definition contrib (i : Z) (w : wpx) : Q :=
   ((if b1 w =? i then dat w else 0) + (if (b2 w =? i) && negb (b1 w =? b2 w) then dat w else 0))%Q.
-Definition marg_at (i : Z) (l : list wpx) : Q := sumQ (map (contrib i) l).
+(** [Qred] (value-preserving normalisation of the fraction) only keeps exact evaluation feasible *)
+Definition marg_at (i : Z) (l : list wpx) : Q := Qred (sumQ (map (contrib i) l)).
 Definition marginalize (n : nat) (l : list wpx) : list Q := map (fun i => marg_at i l) (zrange 0 n).
 
 (** ---------- spans, chunk getter, reduce *)
@@ -69,7 +70,7 @@ Definition partition (start stop step : Z) : list (Z * Z) :=
 (** chunkgetter: pixels[lo:hi] (h5py clamps the slice to the dataset) *)
 Definition get_chunk (px : list pixel) (s : Z * Z) : list pixel := slice px (fst s) (snd s).
 
-Definition vadd (a b : list Q) : list Q := map (fun p => (fst p + snd p)%Q) (combine a b).
+Definition vadd (a b : list Q) : list Q := map (fun p => Qred (fst p + snd p)) (combine a b).
 Definition zeros (n : nat) : list Q := repeat 0%Q n.
 
 (** the list of per-chunk results as the map functor receives the keys (in span order) *)
@@ -85,14 +86,14 @@ Definition marg_of (n : nat) (spans : list (Z * Z)) (fs : list (wpx -> wpx)) (px
 
 (** ---------- one IC sweep *)
 Definition nzs (m : list Q) : list Q := filter (fun x => negb (qz x)) m.
-Definition mean (l : list Q) : Q := (sumQ l / qlen l)%Q.
+Definition mean (l : list Q) : Q := Qred (sumQ l / qlen l).
 Definition variance (l : list Q) : Q :=                       (* numpy var, ddof = 0 *)
   let mu := mean l in mean (map (fun x => ((x - mu) * (x - mu))%Q) l).
 
 (** marg -> (bias', var, mean);  None when no marginal is non-zero.
     marg = marg / nzmarg.mean(); marg[marg == 0] = 1; bias /= marg; var = nzmarg.var() *)
 Definition upd (mu : Q) (p : Q * Q) : Q :=
-  let '(mi, bi) := p in if qz mi then bi else (bi / (mi / mu))%Q.
+  let '(mi, bi) := p in if qz mi then bi else Qred (bi / (mi / mu)).
 Definition ic_update (m b : list Q) : option (list Q * Q * Q) :=
   match nzs m with
   | [] => None
@@ -278,10 +279,13 @@ Definition dense (l : list wpx) (i j : Z) : Q :=
 Definition rowsum (F : Z -> Z -> Q) (n : nat) (b : list Q) (i : Z) : Q :=
   (qnth b i * sumQ (map (fun j => F i j * qnth b j) (zrange 0 n)))%Q.
 
-(** evaluation helpers: reduced fractions for printing *)
-Definition redl (l : list Q) : list Q := map Qred l.
-Definition redo (l : list (option Q)) : list (option Q) := map (option_map Qred) l.
-Definition red_step (r : option (list Q * Q * Q)) : option (list Q * Q * Q) :=
-  match r with None => None | Some (b, v, m) => Some (redl b, Qred v, Qred m) end.
-Definition red_res (r : option (list chrom_res)) : option (list (list (option Q) * option Q * Q * nat)) :=
-  option_map (map (fun c => (redo (c_bias c), option_map Qred (c_scale c), Qred (c_var c), c_iters c))) r.
+(** evaluation helpers: a rational is printed as the two-element list [numerator; denominator] of its
+    reduced fraction (Coq would print some Q literals in decimal notation) *)
+Definition qout (x : Q) : list Z := let r := Qred x in [Qnum r; Zpos (Qden r)].
+Definition qoutl (l : list Q) : list (list Z) := map qout l.
+Definition qouto (l : list (option Q)) : list (option (list Z)) := map (option_map qout) l.
+Definition out_step (r : option (list Q * Q * Q)) : option (list (list Z) * list Z * list Z) :=
+  match r with None => None | Some (b, v, m) => Some (qoutl b, qout v, qout m) end.
+Definition out_res (r : option (list chrom_res))
+  : option (list (list (option (list Z)) * option (list Z) * list Z * nat)) :=
+  option_map (map (fun c => (qouto (c_bias c), option_map qout (c_scale c), qout (c_var c), c_iters c))) r.
